@@ -14,23 +14,28 @@ Theorem C09_equal_keys_equal_streams : forall (H : str -> str),
   (forall x y, H x = H y -> x = y) -> (forall x, ~ In ch_us (H x)) ->
   forall fa a fb b, change_key H fa a = change_key H fb b ->
     encode_def a = encode_def b /\ no_inputs a = no_inputs b /\
-    (no_inputs a = false -> encode_files fa a = encode_files fb b).
+    (no_inputs a = false -> encode_files H fa a = encode_files H fb b).
 Proof. exact key_streams. Qed.
 Print Assumptions C09_equal_keys_equal_streams.
 
-(* injectivity, guarded: states with decodable elements that differ in at most one of the seven
-   definition components and in the content of at most one (existing) input file never share a key *)
-Theorem C09_injective_partial : forall (H : str -> str),
+(* the framed encoding decodes: equal definition streams come from equal definitions *)
+Theorem C09_definition_stream_decodes : forall a b, encode_def a = encode_def b ->
+  ts_label a = ts_label b /\ ts_cmd a = ts_cmd b /\
+  Permutation (ts_ins a) (ts_ins b) /\ Permutation (ts_outs a) (ts_outs b) /\
+  Permutation (ts_deps a) (ts_deps b) /\ Permutation (ts_fp a) (ts_fp b) /\
+  ts_plat a = ts_plat b.
+Proof. exact encode_def_inj. Qed.
+Print Assumptions C09_definition_stream_decodes.
+
+(* injectivity at full strength: states that share a key are the same build state (same label,
+   command, platform, the same inputs / outputs / dependency contributions / fingerprint entries up
+   to order, and the same content -- or absence -- of every input); the only idealisation left is
+   the digest *)
+Theorem C09_injective : forall (H : str -> str),
   (forall x y, H x = H y -> x = y) -> (forall x, ~ In ch_us (H x)) ->
-  forall fa a fb b,
-    wf_state a = true -> wf_state b = true ->
-    change_key H fa a = change_key H fb b ->
-    differ_at_most_one (comps a) (comps b) ->
-    NoDup (ts_ins a) ->
-    (Permutation (ts_ins a) (ts_ins b) -> files_differ_at_most_one fa fb (ts_ins a)) ->
-    state_equiv fa a fb b.
-Proof. exact key_single_change_sensitive. Qed.
-Print Assumptions C09_injective_partial.
+  forall fa a fb b, change_key H fa a = change_key H fb b -> state_equiv fa a fb b.
+Proof. exact key_injective. Qed.
+Print Assumptions C09_injective.
 
 (* the hypotheses on H are satisfiable *)
 Theorem C09_digest_hypotheses_nonvacuous :
@@ -38,42 +43,32 @@ Theorem C09_digest_hypotheses_nonvacuous :
 Proof. exact (conj hex_enc_inj hex_enc_no_us). Qed.
 Print Assumptions C09_digest_hypotheses_nonvacuous.
 
-(* without the guards injectivity is false, whatever the digest function: one witness per class *)
-Theorem C09_injective_refuted_label_command :
-  collides nofs (mkT (mkLabel (s1 "p") (s1 "a")) ["b"; "c"]%char [] [] [] [] linux)
-           nofs (mkT (mkLabel (s1 "p") ["a"; "b"]%char) (s1 "c") [] [] [] [] linux).
-Proof. exact collision_label_command. Qed.
-Print Assumptions C09_injective_refuted_label_command.
+(* ... and the conclusion is not trivial: two different records that are the same build state share
+   their key *)
+Theorem C09_injective_nonvacuous :
+  let a := mkT La (s1 "c") [s1 "i"; s1 "j"] [s1 "o"; s1 "q"] [s1 "d"; s1 "e"] [(s1 "k", s1 "v"); (s1 "l", s1 "w")] linux in
+  let b := mkT La (s1 "c") [s1 "j"; s1 "i"] [s1 "q"; s1 "o"] [s1 "e"; s1 "d"] [(s1 "l", s1 "w"); (s1 "k", s1 "v")] linux in
+  a <> b /\ change_key hex_enc fs_xy_z a = change_key hex_enc fs_xy_z b /\ state_equiv fs_xy_z a fs_xy_z b.
+Proof. exact injective_nonvacuous. Qed.
+Print Assumptions C09_injective_nonvacuous.
 
-Theorem C09_injective_refuted_separator :
-  collides nofs (mkT La [] [] [["a"; ","; "b"]%char] [] [] linux)
-           nofs (mkT La [] [] [s1 "a"; s1 "b"] [] [] linux).
-Proof. exact collision_separator_in_element. Qed.
-Print Assumptions C09_injective_refuted_separator.
-
-Theorem C09_injective_refuted_fingerprint :
-  collides nofs (mkT La [] [] [] [] [(s1 "a", ["b"; "="; "c"]%char)] linux)
-           nofs (mkT La [] [] [] [] [(["a"; "="; "b"]%char, s1 "c")] linux).
-Proof. exact collision_fingerprint_shift. Qed.
-Print Assumptions C09_injective_refuted_fingerprint.
-
-Theorem C09_injective_refuted_outputs_deps :
-  collides nofs (mkT La [] [] [s1 "x"] [] [] linux) nofs (mkT La [] [] [] [s1 "x"] [] linux).
-Proof. exact collision_outputs_deps. Qed.
-Print Assumptions C09_injective_refuted_outputs_deps.
-
-Theorem C09_injective_refuted_file_boundary :
-  collides fs_xy_z (mkT La [] [s1 "a"; s1 "b"] [] [] [] linux)
-           fs_x_yz (mkT La [] [s1 "a"; s1 "b"] [] [] [] linux).
-Proof. exact collision_file_boundary. Qed.
-Print Assumptions C09_injective_refuted_file_boundary.
-
-Theorem C09_injective_refuted_absent_vs_empty :
-  collides nofs (mkT La [] [s1 "a"] [] [] [] linux) fs_a_empty (mkT La [] [s1 "a"] [] [] [] linux).
-Proof. exact collision_absent_vs_empty. Qed.
-Print Assumptions C09_injective_refuted_absent_vs_empty.
-
-Theorem C09_injective_refuted_alias_dep :
-  collides nofs (mkT La [] [] [] [[]] [] linux) nofs (mkT La [] [] [] [] [] linux).
-Proof. exact collision_alias_dep_empty. Qed.
-Print Assumptions C09_injective_refuted_alias_dep.
+(* one witness per collision class of the former unframed encoding (C09-F1..F4): the two states now
+   receive different keys (digest hex_enc, checked by the kernel) *)
+Theorem C09_former_collisions_now_differ :
+  keys_differ nofs (mkT (mkLabel (s1 "p") (s1 "a")) ["b"; "c"]%char [] [] [] [] linux)
+              nofs (mkT (mkLabel (s1 "p") ["a"; "b"]%char) (s1 "c") [] [] [] [] linux) /\
+  keys_differ nofs (mkT (mkLabel ["a"; ":"; "b"]%char (s1 "c")) [] [] [] [] [] linux)
+              nofs (mkT (mkLabel (s1 "a") ["b"; ":"; "c"]%char) [] [] [] [] [] linux) /\
+  keys_differ nofs (mkT La [] [] [["a"; ","; "b"]%char] [] [] linux)
+              nofs (mkT La [] [] [s1 "a"; s1 "b"] [] [] linux) /\
+  keys_differ nofs (mkT La [] [] [] [] [(s1 "a", ["b"; "="; "c"]%char)] linux)
+              nofs (mkT La [] [] [] [] [(["a"; "="; "b"]%char, s1 "c")] linux) /\
+  keys_differ nofs (mkT La [] [] [s1 "x"] [] [] linux) nofs (mkT La [] [] [] [s1 "x"] [] linux) /\
+  keys_differ fs_xy_z (mkT La [] [s1 "a"; s1 "b"] [] [] [] linux)
+              fs_x_yz (mkT La [] [s1 "a"; s1 "b"] [] [] [] linux) /\
+  keys_differ nofs (mkT La [] [s1 "a"] [] [] [] linux) fs_a_empty (mkT La [] [s1 "a"] [] [] [] linux) /\
+  keys_differ nofs (mkT La [] [] [] [[]] [] linux) nofs (mkT La [] [] [] [] [] linux) /\
+  keys_differ nofs (mkT La [] [] [] [] [(s1 "k", s1 "v")] linux)
+              nofs (mkT La [] [] [] [] [(s1 "k", ["v"; "l"; "x"]%char)] None).
+Proof. exact former_collisions_now_differ. Qed.
+Print Assumptions C09_former_collisions_now_differ.
